@@ -109,6 +109,7 @@ def zc(n):
 
 class MilStream(Stream):
     sub = "milenage"
+    retained_field = "opc"
     requires = ["Bytes", "AES", "Milenage", "TS35206", "MilenageCases"]
     model_check = "c15_model_check"
     spec_check = "c15_spec_check"
@@ -127,6 +128,14 @@ class MilStream(Stream):
 
     def classify(self, c, o):
         return c.get("kind", c["fn"])
+
+    def direct_check(self, c, o):
+        # the harness runs every call a second time with output buffers pre-filled with a5 and watches its input slices
+        if o.get("mutated_inputs"):
+            return "the library wrote into its input(s) %s" % ", ".join(o["mutated_inputs"])
+        if o.get("depends_on_buffer_contents"):
+            return "output(s) %s depend on what the caller's output buffer held before the call" % ", ".join(o["depends_on_buffer_contents"])
+        return None
 
     def coq_case(self, c, o):
         return "(" + self.coq_case0(c, o) + ")"
